@@ -372,7 +372,7 @@ func cmdCheck(args []string) int {
 	for _, k := range order {
 		fnKeys = append(fnKeys, shortKey(k))
 	}
-	trusted := trustedBase(cs, done, order)
+	trusted := trustedBase(cs, done, order, *prop)
 	{
 		inl := map[string]bool{}
 		for _, k := range order {
@@ -465,7 +465,7 @@ func seedFromEnv() int {
 	return s
 }
 
-func trustedBase(cs *Contracts, done map[string]*FuncResult, order []string) []string {
+func trustedBase(cs *Contracts, done map[string]*FuncResult, order []string, prop string) []string {
 	used := map[string]bool{}
 	for _, k := range order {
 		for _, c := range done[k].Callees {
@@ -496,6 +496,22 @@ func trustedBase(cs *Contracts, done map[string]*FuncResult, order []string) []s
 	for _, k := range order {
 		for _, a := range cs.ByKey[k].Assumes {
 			out = append(out, "assume in "+shortKey(k)+": "+a.Text)
+		}
+	}
+	// preconditions of functions that no function under contract calls in this run: nobody proves them
+	for _, k := range order {
+		if used[k] {
+			continue
+		}
+		for _, rq := range cs.ByKey[k].Requires {
+			if !rq.activeFor(prop) {
+				continue
+			}
+			line := "unchecked entry precondition (no caller under contract): " + shortKey(k) + ": " + rq.Text
+			if len(line) > 400 {
+				line = line[:400] + "…"
+			}
+			out = append(out, line)
 		}
 	}
 	var closed []string
